@@ -25,6 +25,12 @@ WrittenExactly(before, wrote, F, bs) ==
     LET sel == {i \in 1..Len(before) : Selected(before[i], F, bs)} IN
     /\ \A i \in sel : Count(wrote, before[i].tag) = Cardinality({j \in sel : before[j].tag = before[i].tag})
     /\ \A k \in 1..Len(wrote) : \E i \in sel : before[i].tag = wrote[k]
+(* wrote minus one occurrence of every element of rem (write-backs that were already queued
+   in the cache's write buffer when the flush was requested are not the flush's doing) *)
+RECURSIVE RemoveOnce(_, _)
+RemoveOnce(s, x) == IF s = <<>> THEN <<>> ELSE IF Head(s) = x THEN Tail(s) ELSE <<Head(s)>> \o RemoveOnce(Tail(s), x)
+RECURSIVE Without(_, _)
+Without(s, rem) == IF rem = <<>> THEN s ELSE Without(RemoveOnce(s, Head(rem)), Tail(rem))
 FlushFilteredOK(before, after, wrote, F, bs) ==
     /\ Len(after) = Len(before)
     /\ \A i \in 1..Len(before) : /\ StaysValid(before[i], after[i]) /\ NothingAppears(before[i], after[i])
